@@ -36,7 +36,59 @@ fn addr(i: usize) -> ContentAddress {
     ContentAddress(a)
 }
 
-fn build_set(d: &[SolDesc]) -> SolutionSet {
+/// How the words of slots, keys and values are chosen: the validators may only look at sizes (and
+/// at key equality), so every verdict must be the same under every fill.
+#[derive(Clone, Copy, Debug, PartialEq)]
+pub enum Fill {
+    /// all slots zero, keys `[kid; kl]`, values all one
+    Uniform,
+    /// slot j filled with j+1; keys `[kid, 1, 2, ..]`; value of mutation j filled with j+1
+    Ascending,
+    /// slot j filled with -(j+1); keys `[kid, -1, -2, ..]`; value of mutation j filled with -(j+1)
+    Descending,
+    /// pseudo-random words derived from the position
+    Mixed,
+}
+
+impl Fill {
+    fn name(self) -> &'static str {
+        match self {
+            Fill::Uniform => "uniform",
+            Fill::Ascending => "asc",
+            Fill::Descending => "desc",
+            Fill::Mixed => "mixed",
+        }
+    }
+    fn mix(a: usize, b: usize) -> i64 {
+        let x = (a as u64).wrapping_mul(0x9E37_79B9_7F4A_7C15).wrapping_add((b as u64).wrapping_mul(0xD1B5_4A32_D192_ED03));
+        (x ^ (x >> 29)) as i64
+    }
+    fn slot(self, j: usize, len: usize) -> Vec<i64> {
+        match self {
+            Fill::Uniform => vec![0; len],
+            Fill::Ascending => vec![j as i64 + 1; len],
+            Fill::Descending => vec![-(j as i64) - 1; len],
+            Fill::Mixed => (0..len).map(|t| Self::mix(j + 1, t)).collect(),
+        }
+    }
+    /// keys are identified by (kid, kl) under every fill
+    fn key(self, kid: usize, kl: usize) -> Vec<i64> {
+        match self {
+            Fill::Uniform => vec![kid as i64; kl],
+            Fill::Ascending => (0..kl).map(|t| if t == 0 { kid as i64 } else { t as i64 }).collect(),
+            Fill::Descending => (0..kl).map(|t| if t == 0 { kid as i64 } else { -(t as i64) }).collect(),
+            Fill::Mixed => (0..kl).map(|t| if t == 0 { kid as i64 } else { Self::mix(kid, t) }).collect(),
+        }
+    }
+    fn value(self, j: usize, len: usize) -> Vec<i64> {
+        match self {
+            Fill::Uniform => vec![1; len],
+            _ => self.slot(j, len),
+        }
+    }
+}
+
+fn build_set(d: &[SolDesc], fill: Fill) -> SolutionSet {
     SolutionSet {
         solutions: d
             .iter()
@@ -44,15 +96,19 @@ fn build_set(d: &[SolDesc]) -> SolutionSet {
             .map(|(i, s)| Solution {
                 // solutions of one contract (c of their mutations) but distinct predicates
                 predicate_to_solve: PredicateAddress { contract: addr(s.ms.first().map(|m| m.c).unwrap_or(1)), predicate: addr(1000 + i) },
-                predicate_data: s.pd.iter().map(|l| vec![0; *l]).collect(),
-                state_mutations: s.ms.iter().map(|m| Mutation { key: vec![m.kid as i64; m.kl], value: vec![1; m.vl] }).collect(),
+                predicate_data: s.pd.iter().enumerate().map(|(j, l)| fill.slot(j, *l)).collect(),
+                state_mutations: s.ms.iter().enumerate().map(|(j, m)| Mutation { key: fill.key(m.kid, m.kl), value: fill.value(j, m.vl) }).collect(),
             })
             .collect(),
     }
 }
 
 fn set_event(d: &[SolDesc]) -> J {
-    let set = build_set(d);
+    set_event_fill(d, Fill::Uniform)
+}
+
+fn set_event_fill(d: &[SolDesc], fill: Fill) -> J {
+    let set = build_set(d, fill);
     let res = solution::check_set(&set);
     let class = match &res {
         Ok(()) => "ok".to_string(),
@@ -61,6 +117,7 @@ fn set_event(d: &[SolDesc]) -> J {
     // all mutations of a solution share that solution's contract
     J::O(vec![
         ("e", js("set")),
+        ("fill", js(fill.name())),
         ("sols", J::A(d.iter().map(|s| {
             let c = s.ms.first().map(|m| m.c).unwrap_or(1);
             J::O(vec![
@@ -197,6 +254,29 @@ pub fn main(args: &Args) -> i32 {
     ] {
         push(&mut b, &mut n, format!("set/{name}"), super::guarded(|| set_event(&sols)));
     }
+    // the validators look at sizes only: an oversized slot / key / value at every position among
+    // three, under every fill (so that it is neither always the last nor always the "largest" one)
+    for fill in [Fill::Uniform, Fill::Ascending, Fill::Descending, Fill::Mixed] {
+        for pos in 0..3usize {
+            for over in [false, true] {
+                let mut pd = vec![1usize, 2, 1];
+                pd[pos] = if over { 10_001 } else { 10_000 };
+                let sols = vec![SolDesc { pd: vec![1], ms: vec![] }, SolDesc { pd, ms: vec![MutD { c: 1, kid: 3, kl: 1, vl: 1 }] }];
+                push(&mut b, &mut n, format!("set/pos/pd/{}/{pos}/{over}", fill.name()), super::guarded(|| set_event_fill(&sols, fill)));
+                let mut ms: Vec<MutD> = (0..3).map(|m| MutD { c: 1, kid: 20 + m, kl: 2, vl: 2 }).collect();
+                ms[pos].kl = if over { 1001 } else { 1000 };
+                let sols = vec![SolDesc { pd: vec![2], ms }];
+                push(&mut b, &mut n, format!("set/pos/key/{}/{pos}/{over}", fill.name()), super::guarded(|| set_event_fill(&sols, fill)));
+                let mut ms: Vec<MutD> = (0..3).map(|m| MutD { c: 1, kid: 20 + m, kl: 2, vl: 2 }).collect();
+                ms[pos].vl = if over { 10_001 } else { 10_000 };
+                let sols = vec![SolDesc { pd: vec![2], ms }];
+                push(&mut b, &mut n, format!("set/pos/value/{}/{pos}/{over}", fill.name()), super::guarded(|| set_event_fill(&sols, fill)));
+            }
+        }
+        // duplicates are recognised by key equality under every fill
+        let sols = vec![SolDesc { pd: vec![], ms: vec![MutD { c: 1, kid: 5, kl: 3, vl: 1 }, MutD { c: 1, kid: 6, kl: 3, vl: 1 }, MutD { c: 1, kid: 5, kl: 3, vl: 2 }] }];
+        push(&mut b, &mut n, format!("set/pos/dup/{}", fill.name()), super::guarded(|| set_event_fill(&sols, fill)));
+    }
     // random small sets
     let count = if args.thorough { 3000 } else { 300 };
     for i in 0..count {
@@ -211,7 +291,8 @@ pub fn main(args: &Args) -> i32 {
             })
             .collect();
         // the key is determined by (kid, kl): make kl a function of kid except for the oversized ones
-        push(&mut b, &mut n, format!("set/rand/{i}"), super::guarded(|| set_event(&sols)));
+        let fill = [Fill::Uniform, Fill::Ascending, Fill::Descending, Fill::Mixed][i % 4];
+        push(&mut b, &mut n, format!("set/rand/{i}"), super::guarded(|| set_event_fill(&sols, fill)));
     }
     // predicates / contracts
     for nn in around(1000) {
